@@ -29,7 +29,7 @@ LEVEL_TEXT = ("Property-based exploration: grammar-generated unit expressions (d
               "named working-unit choices and of the LAMMPS style tables (dimension by regression over random seeds); "
               "optional byte-level atheris campaign on uc.parse.")
 TECHNIQUE = "property-based testing (Hypothesis, 16 seeded shards): independent AST evaluator, dimension algebra, exhaustive named-choice enumeration, atheris grammar fuzzing"
-WALL = {'quick': 70, 'thorough': 600}
+WALL = {'quick': 58, 'thorough': 600}
 
 EPS = 2.220446049250313e-16
 DEFAULT = dict(length='angstrom', mass='amu', energy='eV', charge='e')
@@ -358,8 +358,8 @@ MECH = {                       # exponents of (m, kg, s, C, K)
     'mass': (0, 1, 0, 0, 0), 'length': (1, 0, 0, 0, 0), 'time': (0, 0, 1, 0, 0), 'energy': (2, 1, -2, 0, 0),
     'velocity': (1, 0, -1, 0, 0), 'force': (1, 1, -2, 0, 0), 'torque': (2, 1, -2, 0, 0), 'pressure': (-1, 1, -2, 0, 0),
     'dynamic viscosity': (-1, 1, -1, 0, 0), 'density': (-3, 1, 0, 0, 0), 'ang-mom': (2, 1, -1, 0, 0), 'ang-vel': (0, 0, -1, 0, 0),
+    'volume': (3, 0, 0, 0, 0),
 }
-LJ_BASE = ('mass', 'length', 'time', 'energy', 'velocity', 'force', 'torque', 'pressure', 'dynamic viscosity', 'density')
 NSEED = 12
 
 
@@ -380,13 +380,11 @@ def oracle_lammps(case):
     style, key = case['style'], case['key']
     table = lmp.style.unit(style)
     labels = {'style_' + style}
-    if style == 'lj':
-        if key in LJ_BASE:
-            require(table[key] is None, lambda: "style.unit('lj')[%r] = %r, expected None" % (key, table[key]))
-            return labels | {'lj_none'}
-        return labels | {'lj_derived_not_judged'}
     if key not in table:
         return labels | {'absent'}
+    if style == 'lj':
+        require(table[key] is None, lambda: "style.unit('lj')[%r] = %r, expected None" % (key, table[key]))
+        return labels | {'lj_none'}
     entry = table[key]
     require(isinstance(entry, str), lambda: "style.unit(%r)[%r] = %r is not a unit expression" % (style, key, entry))
     rows, vals = [], []
@@ -430,7 +428,7 @@ DEPS = os.path.join(VERIF, '.deps')
 
 def atheris_enumerate(tier):
     seed = int(os.environ.get('VERIF_SEED', '1') or 1)
-    n, runs = (2, 15000) if tier == 'quick' else (16, 400000)
+    n, runs = (2, 15000) if tier == 'quick' else (16, 300000)
     return [{'fuzz_seed': derive_seed(seed, 'C09', 'atheris', j) % (2 ** 31 - 1) + 1, 'runs': runs,
              'units_seed': derive_seed(seed, 'C09', 'atheris-units', j) % (2 ** 31), 'corpus': j % 2 == 1} for j in range(n)]
 
@@ -471,20 +469,20 @@ def oracle_atheris(case):
 # the two enumerations are cheap (seconds) and run as one shard each so that they are scheduled first and are never starved by
 # the wall budget when the machine is shared
 CLAUSES = [
-    Clause('precedence', oracle_precedence, g9.precedence_cases, quick=40000, thorough=800000,
+    Clause('precedence', oracle_precedence, g9.precedence_cases, quick=40000, thorough=700000,
            min_share={'nt': 0.37, 'div_then_op': 0.23, 'pow_in_product': 0.37, 'grp_product_pow': 0.12, 'paren_right_operand': 0.13,
                       'nested_paren': 0.09, 'ws_tab': 0.16, 'ws_newline': 0.16, 'ws_cr': 0.12, 'exotic_name': 0.14,
                       'lit_leading_dot': 0.035, 'neg_exp': 0.24, 'cfg_named': 0.25, 'cfg_seed': 0.16},
            max_share={'range_skip': 0.05},
            desc='uc.parse(rendered expression) equals my AST evaluator (parentheses, powers, then * / left to right) to 1e-12, '
                 'under random / SI / named working units'),
-    Clause('identity', oracle_identity, g9.identity_cases, quick=16000, thorough=250000,
+    Clause('identity', oracle_identity, g9.identity_cases, quick=16000, thorough=200000,
            min_share={'nt': 0.3, 'mode_literal': 0.14, 'literal_list': 0.08, 'literal_nounit': 0.03, 'mode_scaled': 0.03,
                       'mode_none': 0.03, 'ndim2': 0.05, 'ndim3': 0.06, 'as_array': 0.18, 'as_tuple': 0.06},
            max_share={'range_skip': 0.05},
            desc='get_in_units(set_in_units(v,u),u) = v to 4 eps; set_in_units = v*factor; set_literal("v u") = v*factor; shapes kept; '
                 'None / "scaled" units'),
-    Clause('invariance', oracle_invariance, g9.invariance_cases, quick=12000, thorough=200000,
+    Clause('invariance', oracle_invariance, g9.invariance_cases, quick=12000, thorough=160000,
            min_share={'nt': 0.4, 'expanded': 0.14, 'distinct_cfgs_3': 0.29, 'dimensional': 0.44},
            max_share={'range_skip': 0.05},
            desc='same-dimension expression pairs (class substitution / expansion from my dimension table): conversion A -> B gives the '
@@ -493,7 +491,7 @@ CLAUSES = [
            desc='exhaustive: every non-over-determined choice of <= 4 named working units: each chosen unit is one (1e-12) via '
                 'unit[], parse and get_in_units, after a different previous configuration; documented ValueError refusals'),
     Clause('lammps_dims', oracle_lammps, enumerate=lammps_enumerate, nshards=1, min_share={'nt': 0.4},
-           desc='exhaustive: 8 styles x 12 mechanical keys: dimension exponents recovered by regression over 12 random seeds equal '
+           desc='exhaustive: 8 styles x 13 mechanical keys: dimension exponents recovered by regression over 12 random seeds equal '
                 'the dimension of the quantity (1e-6); lj entries are None'),
     Clause('atheris', oracle_atheris, enumerate=atheris_enumerate,
            desc='byte-level libFuzzer campaign on uc.parse through a grammar decoder (and raw text judged by my strict parser); '
